@@ -206,7 +206,7 @@ fn raw_line_offset(raw: &RawOutcome, src: &str) -> usize {
 }
 
 fn main() {
-    std::panic::set_hook(Box::new(|_| {}));
+    if std::env::var("VH_DEBUG").is_err() { std::panic::set_hook(Box::new(|_| {})); }
     let args: Vec<String> = std::env::args().collect();
     if args.len() >= 3 && args[1] == "replay-body" {
         replay_body(&args[2]);
